@@ -159,3 +159,23 @@ def blocked_on_lock(stack_frames):
     full = stack_frames[0][3] if len(stack_frames[0]) > 3 else None
     src = linecache.getline(full, line) if full else ""
     return ("acquire(" in src) or ("with " in src and "lock" in src.lower())
+
+
+def stuck(threads, wait=1.5, samples=3):
+    """For threads that should have finished: {name: frames} when every one that is still alive sat on exactly the same source
+    line in all `samples` looks, `wait` seconds apart (blocked); None when any of them moved (slow, not stuck: inconclusive)."""
+    import time
+    alive = [t for t in threads if t.is_alive()]
+    if not alive:
+        return None
+    first = thread_states(alive)
+    for _ in range(samples - 1):
+        time.sleep(wait)
+        alive = [t for t in alive if t.is_alive()]
+        if not alive:
+            return None
+        now = thread_states(alive)
+        for n, fr in now.items():
+            if [f[:3] for f in fr[:3]] != [f[:3] for f in first.get(n, [])[:3]]:
+                return None
+    return {n: fr for n, fr in first.items() if any(t.name == n for t in alive)}
